@@ -993,3 +993,71 @@ func c02r7(rc *core.RC) {
 	})
 	rc.Check(marks, key, fd.Pos(), "the decoder built for float32 is given the bit size 32")
 }
+
+// ---- C02.R8 "cannot set embedded pointer to unexported struct" is raised only when the pointer is nil ----
+
+// encoding/json refuses to allocate an embedded pointer to an unexported struct type; when the
+// destination already holds such a pointer, its fields are set through it. The struct decoder keeps
+// the refusal as structFieldSet.err; it may return it only under a test that the pointer at the
+// field's offset is nil.
+func c02r8(rc *core.RC) {
+	p := rc.P
+	n := 0
+	for _, fd := range p.Funcs("decoder") {
+		if fd.Body == nil {
+			continue
+		}
+		info := p.Info(fd)
+		fn := p.FuncName(fd)
+		k := 0
+		ast.Inspect(fd.Body, func(m ast.Node) bool {
+			r, ok := m.(*ast.ReturnStmt)
+			if !ok || len(r.Results) == 0 {
+				return true
+			}
+			last := r.Results[len(r.Results)-1]
+			if f := core.FieldOf(info, last); f == nil || f.Name() != "err" || !strings.HasSuffix(f.Pkg().Path(), "internal/decoder") {
+				return true
+			}
+			n++
+			k++
+			rc.Touch(fn)
+			key := fmt.Sprintf("%s/field-err#%d only-for-nil-pointer", fn, k)
+			guarded := false
+			path := core.PathTo(fd.Body, r)
+			for i := len(path) - 1; i >= 0; i-- {
+				ifs, isIf := path[i].(*ast.IfStmt)
+				if !isIf {
+					continue
+				}
+				ast.Inspect(ifs.Cond, func(x ast.Node) bool {
+					be, isBin := x.(*ast.BinaryExpr)
+					if !isBin || be.Op != token.EQL || !core.IsNilIdent(info, be.Y) {
+						return true
+					}
+					// *(*unsafe.Pointer)(… field.offset …) == nil
+					if st, isStar := core.Unparen(be.X).(*ast.StarExpr); isStar {
+						mentionsOffset := false
+						ast.Inspect(st, func(y ast.Node) bool {
+							if e, isExpr := y.(ast.Expr); isExpr {
+								if f := core.FieldOf(info, e); f != nil && f.Name() == "offset" {
+									mentionsOffset = true
+								}
+							}
+							return true
+						})
+						if mentionsOffset {
+							guarded = true
+						}
+					}
+					return true
+				})
+			}
+			rc.Check(guarded, key, r.Pos(), "the refusal to set an embedded pointer to an unexported struct is returned only under a test that the pointer at the field's offset is nil")
+			return true
+		})
+	}
+	if n < 2 {
+		rc.Unknown("decoder/field-err-returns", token.NoPos, "found %d returns of structFieldSet.err (2 confirmed)", n)
+	}
+}
